@@ -68,6 +68,19 @@ class World:
             groups.setdefault(m[0], []).append(c)
         return list(groups.items())
 
+    def property_overrides(self, static_cls, attr):
+        """Subclasses of static_cls (grouped by defining class) where attr is a @property."""
+        key = (static_cls, attr)
+        cache = self.__dict__.setdefault("_prop_cache", {})
+        if key not in cache:
+            groups = {}
+            for c in self.subclasses(static_cls):
+                m = self.find_method(c, attr)
+                if m is not None and any(isinstance(d, ast.Name) and d.id == "property" for d in m[1].decorator_list):
+                    groups.setdefault(m[0], []).append(c)
+            cache[key] = list(groups.items())
+        return cache[key]
+
     def exc_matches(self, raised, handler):
         if handler in ("Exception", "BaseException"):
             return True
@@ -420,8 +433,34 @@ def _b_tuple(ex, st, args, kwargs, node, spec):
     raise Unsupported(f"tuple() of {v!r}")
 
 
+_GSUM = {}
+
+
+def gsum(ex, st, gen, g, seq, b, spec):
+    """sum(elt for x in seq) over a symbolic sequence: recursive spec function, one per
+    (element expression, array) pair, defined by its recurrence."""
+    from . import heap
+    arr = heap.named_array(ex.cx, seq.arr)
+    text = ast.unparse(gen.elt) + " for " + ast.unparse(g.target)
+    key = (text, str(seq.elem), arr.get_id())
+    cache = ex.cx.__dict__.setdefault("_gsum", {})
+    if key not in cache:
+        fname = "GSUM[" + text + "]"
+        f = _GSUM.setdefault(fname, z3.Function(fname, AII, I, I))
+        j = z3.Int("j!gs")
+        bb = dict(b)
+        calls._bind_target(g.target, heap.seq_elem(seq, arr[j - 1]), bb)
+        term = zint(ex.ev(gen.elt, st, True, bb))
+        ex.cx.axioms.append(f(arr, 0) == 0)
+        ex.cx.axioms.append(z3.ForAll([j], z3.Implies(j > 0, f(arr, j) == f(arr, j - 1) + term), patterns=[f(arr, j)]))
+        cache[key] = f
+    return cache[key](arr, seq.n)
+
+
 def _b_sum(ex, st, args, kwargs, node, spec):
     v = args[0]
+    if isinstance(v, tuple) and v and v[0] == "__gsum__":
+        return gsum(ex, st, v[1], v[2], v[3], v[4], spec)
     if isinstance(v, ListV):
         acc = z3.IntVal(0) if len(args) < 2 else zint(args[1])
         for g, i in v.items:
